@@ -72,6 +72,28 @@ def render_affine(draw, coefs, const, env, allow_vector_forms=True, _inner=False
     pieces = []  # (recipe, sign)
     const = float(const)
     remaining = {n: float(a) for n, a in coefs.items() if a != 0}
+    if allow_vector_forms and env["matrices"] and draw(st.integers(0, 3 if not any(m_.get("sym") for m_ in env["matrices"]) else 1)) == 0:
+        # a * M.sum() over a whole matrix, its transpose or a block (for a symmetric matrix a shared variable counts twice;
+        # an off-diagonal block of a symmetric matrix is not symmetric): the rest of the row is rendered around it
+        m = draw(st.sampled_from(env["matrices"]))
+        base = ["mvar", m["name"]]
+        cands = [base, ["T", base]]
+        if m["r"] >= 2 and m["c"] >= 2:
+            cands.append(["msub", base, [0, 2, None], [m["c"] - 2, m["c"], None]])
+        if m.get("sym") and m["r"] >= 3:
+            cands += [["msub", base, [0, 2, None], [1, 3, None]], ["msub", base, [1, 3, None], [0, 2, None]]]
+        B = draw(st.sampled_from(cands))
+        a = float(draw(st.sampled_from([1, 2, -1, 0.5])))
+        mult, _ = exact_affine(["msum", B], env)
+        for nm, k_ in mult.items():
+            remaining[nm] = remaining.get(nm, 0.0) - a * float(k_)
+            if remaining[nm] == 0:
+                del remaining[nm]
+        r = ["msum", B]
+        if a != 1:
+            r = ["bin", "*", _cnum(draw, a), r] if draw(st.booleans()) else ["bin", "*", r, _cnum(draw, a)]
+        pieces.append(r)
+        forms.append("a*M.sum()")
     # vector forms over declared vectors
     if allow_vector_forms:
         for v in env["vectors"]:
@@ -80,9 +102,15 @@ def render_affine(draw, coefs, const, env, allow_vector_forms=True, _inner=False
             if not any(sub):
                 continue
             style = draw(st.sampled_from(["elementwise", "lincomb", "lincomb", "vsum", "shifted", "slice", "matvecrow",
-                                          "reversed", "reversed", "powsum", "dotconst", "exprsum"]))
+                                          "reversed", "reversed", "powsum", "dotconst", "exprsum", "twolincomb"]))
             V = ["vvar", v["name"]]
-            if style == "powsum" and len(set(sub)) == 1:
+            if style == "twolincomb":
+                # two reductions over the SAME vector in one expression: a @ x + b @ x
+                s1 = [draw(st.sampled_from(COEFS + [0])) for _ in sub]
+                s2 = [a_ - b_ for a_, b_ in zip(sub, s1)]
+                r = ["bin", "+", ["lincomb", s1, V, draw(st.sampled_from(["c@x", "x@c"]))], ["lincomb", s2, V, draw(st.sampled_from(["c@x", "LinearCombination"]))]]
+                forms.append("a@x+b@x")
+            elif style == "powsum" and len(set(sub)) == 1:
                 # sum(x ** 1): a linear node of its own kind (VectorPowerSum), also over a reversed view
                 W = V if draw(st.booleans()) else ["slice", V, None, None, -1]
                 r = ["vsum", ["vpow", W, draw(st.sampled_from([1, 1.0]))]]
@@ -111,7 +139,10 @@ def render_affine(draw, coefs, const, env, allow_vector_forms=True, _inner=False
             elif style == "vsum" and len(set(sub)) == 1:
                 r = ["vsum", V] if draw(st.booleans()) else ["vector_sum", V]
                 a = sub[0]
-                if a != 1:
+                if a in (0.5, 0.25, -0.5, 2.0, -2.0) and draw(st.booleans()):
+                    r = ["bin", "/", r, _cnum(draw, 1.0 / a, kinds=("pyfloat", "Constant", "pyint") if float(1.0 / a) == int(1.0 / a) else ("pyfloat", "Constant"))]
+                    forms.append("x.sum()/k")
+                elif a != 1:
                     r = ["bin", "*", _cnum(draw, a), r] if draw(st.booleans()) else ["bin", "*", r, _cnum(draw, a)]
                 forms.append("vsum")
             elif style == "shifted":
@@ -224,8 +255,12 @@ def lp_envs(draw):
     for n in vnames:
         env["vectors"].append(dict(name=n, n=draw(st.sampled_from([1, 2, 2, 3, 3, 4, 4, 4, 12])), **bnd()))  # 12: two-digit indices
     if nm:
-        env["matrices"].append(dict(name=draw(st.sampled_from(gen.MATRIX_NAMES)), r=draw(st.integers(1, 2)),
-                                    c=draw(st.integers(1, 2)), sym=False, **bnd()))
+        if draw(st.integers(0, 2)) == 0:
+            k_ = draw(st.sampled_from([2, 3]))
+            env["matrices"].append(dict(name=draw(st.sampled_from(gen.MATRIX_NAMES)), r=k_, c=k_, sym=True, **bnd()))
+        else:
+            env["matrices"].append(dict(name=draw(st.sampled_from(gen.MATRIX_NAMES)), r=draw(st.integers(1, 2)),
+                                        c=draw(st.integers(1, 3)), sym=False, **bnd()))
     return env
 
 
